@@ -91,6 +91,14 @@ type VCtx struct {
 	actionOld *State
 	csCount   int
 	heldAtEntry *Term
+	relPkgs   []string
+	gmaps     []*ghostMapInfo
+	usesAtomics bool
+	localAtomics map[string]bool
+	atomicBefore *State
+	atomicCount int
+	lastAtomicRet Val
+	curFrame  *Frame
 	pointsHit map[string]bool
 	curSelectChans []*Term
 	curSelectBlocking bool
@@ -112,7 +120,7 @@ type embedLink struct {
 
 func (e *Engine) newCtx(fn *ssa.Function, c *FuncContract) *VCtx {
 	ctx := &VCtx{eng: e, top: fn, contract: c, declSet: map[string]bool{}, heapSorts: map[string]Sort{},
-		oblCount: map[string]int{}, embedded: map[string]*embedInfo{}}
+		oblCount: map[string]int{}, embedded: map[string]*embedInfo{}, localAtomics: map[string]bool{}}
 	if c != nil {
 		ctx.props = c.Props
 	}
@@ -902,12 +910,15 @@ func (c *VCtx) execFunction(fr *Frame, st *State) (*State, Val) {
 			continue
 		}
 		fr.curBlock = b
+		c.curFrame = fr
 		alive := true
 		for i, in := range b.Instrs {
 			fr.curIdx = i
 			if _, ok := in.(*ssa.Phi); ok {
 				continue
 			}
+			c.curFrame = fr
+			fr.curBlock = b
 			if !c.execInstr(fr, cur, in, incoming) {
 				alive = false
 				break
